@@ -21,6 +21,7 @@ package phase3
 //@   requires[posindex] forall t int :: 0 <= t && t < len(es) ==> lower.Nodes[lowerEnd(es[t], upper.Index).LayerPos] == lowerEnd(es[t], upper.Index)
 //@   ensures[complete|C12] forall t int :: 0 <= t && t < len(es) ==> (exists q int :: 0 <= q && q < len(result) && result[q] == lowerEnd(es[t], upper.Index))
 //@   ensures[only|C12] forall q int :: 0 <= q && q < len(result) && result[q] != nil ==> (exists t int :: 0 <= t && t < len(es) && result[q] == lowerEnd(es[t], upper.Index))
+//@   ensures[inband|C01] forall q int :: 0 <= q && q < len(result) && result[q] != nil ==> 0 <= result[q].LayerPos && result[q].LayerPos < len(lower.Nodes)
 //@   loop range(mat)#1 index a
 //@     invariant len(mat) == m && allocatedArr(mat) && !old(allocatedArr(now(mat)))
 //@     invariant forall r int :: 0 <= r && r < a ==> len(mat[r]) == n && allocatedArr(mat[r]) && !old(allocatedArr(now(mat[r])))
@@ -34,6 +35,7 @@ package phase3
 //@     invariant forall r int, s int :: 0 <= r && r < s && s < m ==> arr(mat[r]) != arr(mat[s])
 //@     invariant forall t int :: 0 <= t && t < len(es) ==> es[t] == old(es[t])
 //@     invariant forall c int :: 0 <= c && c < len(lower.Nodes) ==> lower.Nodes[c] == old(lower.Nodes[c])
+//@     invariant[|C01] forall r int, c int :: 0 <= r && r < m && 0 <= c && c < n && mat[r][c] != nil ==> mat[r][c].LayerPos == c
 //@     invariant[|C12] forall t int :: 0 <= t && t < b ==>
 //@         mat[upperEnd(es[t], upper.Index).LayerPos][lowerEnd(es[t], upper.Index).LayerPos] == lowerEnd(es[t], upper.Index)
 //@     invariant[|C12] forall r int, c int :: 0 <= r && r < m && 0 <= c && c < n && mat[r][c] != nil ==>
@@ -43,6 +45,8 @@ package phase3
 //@   assert[only1|C12] after "nodes := make" : forall r int, c int :: 0 <= r && r < m && 0 <= c && c < n && mat[r][c] != nil ==>
 //@         (exists t int :: 0 <= t && t < len(es) && mat[r][c] == lowerEnd(es[t], upper.Index))
 //@   loop range(mat)#2 index i2
+//@     invariant[|C01] n == len(lower.Nodes) && (forall r int, c int :: 0 <= r && r < m && 0 <= c && c < n && mat[r][c] != nil ==> mat[r][c].LayerPos == c)
+//@     invariant[|C01] forall q int :: 0 <= q && q < len(nodes) && nodes[q] != nil ==> 0 <= nodes[q].LayerPos && nodes[q].LayerPos < n
 //@     invariant[|C12] forall t int :: 0 <= t && t < len(es) ==>
 //@         mat[upperEnd(es[t], upper.Index).LayerPos][lowerEnd(es[t], upper.Index).LayerPos] == lowerEnd(es[t], upper.Index)
 //@     invariant[|C12] forall r int, c int :: 0 <= r && r < m && 0 <= c && c < n && mat[r][c] != nil ==>
@@ -55,6 +59,8 @@ package phase3
 //@     invariant[|C12] forall r int, c int :: 0 <= r && r < i2 && 0 <= c && c < n && mat[r][c] != nil ==> (exists q int :: 0 <= q && q < k && q < len(nodes) && nodes[q] == mat[r][c])
 //@     invariant[|C12] forall q int :: 0 <= q && q < len(nodes) && nodes[q] != nil ==> (exists r int, c int :: 0 <= r && r < m && 0 <= c && c < n && nodes[q] == mat[r][c])
 //@   loop range(mat[i])#1 index j2
+//@     invariant[|C01] n == len(lower.Nodes) && (forall r int, c int :: 0 <= r && r < m && 0 <= c && c < n && mat[r][c] != nil ==> mat[r][c].LayerPos == c)
+//@     invariant[|C01] forall q int :: 0 <= q && q < len(nodes) && nodes[q] != nil ==> 0 <= nodes[q].LayerPos && nodes[q].LayerPos < n
 //@     invariant[|C12] forall t int :: 0 <= t && t < len(es) ==>
 //@         mat[upperEnd(es[t], upper.Index).LayerPos][lowerEnd(es[t], upper.Index).LayerPos] == lowerEnd(es[t], upper.Index)
 //@     invariant[|C12] forall r int, c int :: 0 <= r && r < m && 0 <= c && c < n && mat[r][c] != nil ==>
@@ -66,6 +72,39 @@ package phase3
 //@     invariant 0 <= k
 //@     invariant[|C12] forall r int, c int :: 0 <= r && r < m && 0 <= c && c < n && mat[r][c] != nil && (r < i || (r == i && c < j2)) ==> (exists q int :: 0 <= q && q < k && q < len(nodes) && nodes[q] == mat[r][c])
 //@     invariant[|C12] forall q int :: 0 <= q && q < len(nodes) && nodes[q] != nil ==> (exists r int, c int :: 0 <= r && r < m && 0 <= c && c < n && nodes[q] == mat[r][c])
+
+// countCrossings (C01): the accumulator tree has 2^c leaves with 2^c >= size of the smaller band; every target handed
+// over by radixsort sits in the smaller band (ensures[inband]), so its leaf and the walk up to the root stay inside the
+// tree. radixsort's own preconditions (the edges run between the two bands, LayerPos is the index in the band) come from
+// inLayerEdges and the orderer's bookkeeping and are excluded from the claim by description (props.json "except").
+//@ func countCrossings
+//@   requires[|C01] l1 != nil && l2 != nil
+//@   loop for(k<q)#1
+//@     invariant[|C01] k >= 1
+//@   loop range(nodes)#1 index t
+//@     invariant[|C01] k >= 0 && q <= k + 1 && len(tree) == 2*k + 1
+//@   loop for(i>0)#1
+//@     invariant[|C01] 0 <= i && i < len(tree)
+
+// crossings / crossingsAround (C01): neighbouring bands exist and are non-nil; crossingsAround needs at least two bands
+// (execWeightedMedian returns early on a single band)
+//@ func crossings
+//@   requires[|C01] forall r int :: 0 <= r && r < len(layers) ==> layers[r] != nil
+//@ func crossingsAround
+//@   requires[|C01] 0 <= l && l < len(layers) && len(layers) >= 2 && (forall r int :: 0 <= r && r < len(layers) ==> layers[r] != nil)
+
+// transpose (C01): at least two bands, each stored at its own index; the position map stays consistent across the
+// swaps. That the two swapped nodes have position entries (requires[inpos] of swap) is set up by initPositions for the
+// whole component and is excluded from the claim by description (props.json "except")
+//@ func wmedianProcessor.transpose
+//@   requires[|C01] p != nil && posOK(p) && len(layers) >= 2 && (forall r int :: 0 <= r && r < len(layers) ==> layers[r] != nil && layers[r].Index == r)
+//@   ensures[|C01] posOK(p)
+//@   loop for(improved)#1
+//@     invariant[|C01] posOK(p)
+//@   loop range(layers)#1 index r0
+//@     invariant[|C01] posOK(p)
+//@   loop for(i<len(layer.Nodes)-2)#1
+//@     invariant[|C01] posOK(p)
 
 // ---------------------------------------------------------------------------
 // position bookkeeping of the weighted-median orderer (C01): getPos's sanity panic fires exactly when the map and
@@ -113,6 +152,7 @@ package phase3
 
 //@ func breakLongEdges
 //@   requires g != nil && endsValid(g) && listsApart(g)
+//@   ensures[bands|C01] endsValid(g) && len(g.Layers) == old(len(g.Layers)) && (forall r int :: 0 <= r && r < len(g.Layers) ==> g.Layers[r] == old(g.Layers[r]))
 //@   ensures[proper|C03] forall j int :: 0 <= j && j < len(g.Edges) ==> g.Edges[j].To.Layer - g.Edges[j].From.Layer <= 1 && g.Edges[j].From.Layer - g.Edges[j].To.Layer <= 1
 //@   loop for(i<len(g.Edges))#1
 //@     invariant i <= len(g.Edges) && endsValid(g) && listsApart(g)
@@ -121,16 +161,78 @@ package phase3
 // posOK: the position map and the LayerPos field agree wherever the map has an entry (what getPos' sanity panic checks)
 //@ spec posOK(p *wmedianProcessor) bool = forall x *Node :: has(p.positions, x) ==> x != nil && p.positions[x] == x.LayerPos
 //@ func wmedianProcessor.swap
-//@   requires[|C01] p != nil && v != nil && w != nil && has(p.positions, v) && has(p.positions, w) && posOK(p)
+//@   requires[|C01] p != nil && v != nil && w != nil && posOK(p)
+//@   requires[inpos|C01] has(p.positions, v) && has(p.positions, w)
 //@   ensures[|C01] posOK(p) && (forall x *Node :: has(p.positions, x) == old(has(p.positions, x)))
 //@ func wmedianProcessor.adjacentNodesPositions
 //@   requires[|C01] p != nil && n != nil && posOK(p)
 //@   requires[|C01] forall k int :: 0 <= k && k < len(edges) ==> edges[k] != nil && edges[k].From != nil && edges[k].To != nil
 //@       && has(p.positions, edges[k].From) && has(p.positions, edges[k].To)
 
+// sortLayer (C01): the three cursors stay inside the band; every node it swaps has a position entry because every node
+// of the band has one and a swap exchanges two band cells
+//@ spec bandInPos(p *wmedianProcessor, nodes []*Node) bool =
+//@   forall k int :: 0 <= k && k < len(nodes) ==> nodes[k] != nil && has(p.positions, nodes[k])
+//@ func wmedianProcessor.sortLayer
+//@   requires[|C01] p != nil && posOK(p)
+//@   requires[inpos|C01] bandInPos(p, nodes)
+//@   ensures[|C01] posOK(p)
+//@   loop for(iter>=0)#1
+//@     invariant[|C01] 0 - 1 <= iter && iter + 1 <= ep && ep <= len(nodes) && posOK(p) && bandInPos(p, nodes)
+//@   loop for(lp<ep)#1
+//@     invariant[|C01] 0 <= lp && 0 <= ep && ep <= len(nodes) && posOK(p) && bandInPos(p, nodes)
+//@   loop for(lp<ep&&medians[nodes[lp]]==-1)#1
+//@     invariant[|C01] 0 <= lp && lp <= ep
+//@   loop for(rp<ep)#1
+//@     invariant[|C01] lp < rp && rp <= ep
+
+// the two median sweeps (C01): bands are non-nil and the position map stays consistent across the calls. That every
+// band node and every neighbour has a position entry (preconditions of sortLayer and adjacentNodesPositions) is set up
+// by initPositions for the whole component; carrying it through the sweep needs the bands' arrays to be pairwise apart
+// and is not discharged - those two call preconditions are excluded from the claim by description (props.json "except")
+//@ func wmedianProcessor.wmedianTopBottom
+//@   requires[|C01] p != nil && posOK(p) && (forall r int :: 0 <= r && r < len(layers) ==> layers[r] != nil)
+//@   ensures[|C01] posOK(p)
+//@   loop for(r<len(layers))#1
+//@     invariant[|C01] 1 <= r && posOK(p)
+//@   loop range(layers[r].Nodes)#1 index k
+//@     invariant[|C01] posOK(p)
+//@ func wmedianProcessor.wmedianBottomTop
+//@   requires[|C01] p != nil && posOK(p) && (forall r int :: 0 <= r && r < len(layers) ==> layers[r] != nil)
+//@   ensures[|C01] posOK(p)
+//@   loop for(r>=0)#1
+//@     invariant[|C01] r < len(layers) && posOK(p)
+//@   loop range(layers[r].Nodes)#1 index k
+//@     invariant[|C01] posOK(p)
+
+// initFixedPositions (C01): walks the edge list it is given; the shape of its local doubly linked chains (a cell found
+// through the map or the chain list is non-nil, next.prev is set) is not under contract - those dereferences are
+// excluded from the claim by description (props.json "except")
+//@ func initFixedPositions
+//@   requires[|C01] forall k int :: 0 <= k && k < len(edges) ==> edges[k] != nil && edges[k].From != nil && edges[k].To != nil
+//@   ensures[|C01] result.mustAfter != nil && result.mustBefore != nil
+
+// execWeightedMedian (C01): what breakLongEdges needs, and bands stored at their own index (wmedianRun). The final
+// write-back reads the snapshot map for every node.
+//@ func execWeightedMedian
+//@   requires[|C01] g != nil && endsValid(g) && listsApart(g) && len(g.Layers) >= 1
+//@   requires[|C01] forall r int :: 0 <= r && r < len(g.Layers) ==> g.Layers[r] != nil && g.Layers[r].Index == r
+
+// phase3.Alg.Process (C01): one of the two documented algorithms; a component of more than one node arrives layered
+// (what execWeightedMedian needs)
+//@ func Alg.Process
+//@   requires[|C01] g != nil && (alg == NoOrdering || alg == WMedian)
+//@   requires[|C01] len(g.Nodes) != 1 && alg == WMedian ==> endsValid(g) && listsApart(g) && len(g.Layers) >= 1
+//@       && (forall r int :: 0 <= r && r < len(g.Layers) ==> g.Layers[r] != nil && g.Layers[r].Index == r)
+
 // wmedianRun (C12): the order handed back with the best crossing count is a snapshot - a map of its own, never the
 // live position map that later sweeps keep rewriting (so count and order stay a matched pair).
 //@ func wmedianRun
+//@   requires[|C01] g != nil && len(g.Layers) >= 2 && (forall r int :: 0 <= r && r < len(g.Layers) ==> g.Layers[r] != nil && g.Layers[r].Index == r)
+//@   assume[posinit|C01] before "layers := g.Layers" : posOK(p)
+//@   loop range(layers)#1 index r1
+//@     invariant[|C01] p != nil && posOK(p)
 //@   assert[snapshot|C12] before "return bestx, bestp" : bestp != nil && p != nil && bestp != p.positions
 //@   loop for(i<params.maxiter)#1
+//@     invariant[|C01] p != nil && posOK(p)
 //@     invariant[|C12] p != nil && bestp != nil && bestp != p.positions && p.positions == loopold(p.positions)
